@@ -1,7 +1,7 @@
 """C18 - remote contexts are unique per id, supply their workers' work, and clean up."""
 import ast
 
-from ..astutil import (canon, split_if, facts_at, AnalysisError, dotted, calls_in, last_attr, receiver, norm, is_name, walk_local, is_self_attr,
+from ..astutil import (canon, split_if, facts_at, late_bound_closures, AnalysisError, dotted, calls_in, last_attr, receiver, norm, is_name, walk_local, is_self_attr,
                        loc, short, parent_map, names_in)
 from ..cfg import is_flow, path_str
 
@@ -150,6 +150,12 @@ def run(ctx):
               'deleting a context does not end its helper (wait then terminate): its workers keep running and the id cannot be reused safely', where=loc(f, dele[0]) if dele else loc(f, f.node))
     RC = P.cls('RemoteContext')
     ctx.used(*[RC.methods[m] for m in ('wait', 'terminate', 'close', 'call', '__init__', '_try_del', '_create_worker', '__getstate__', '__setstate__')])
+    # deleting the context ends *each* of its workers: whatever the helper starts per child is bound to that child (see C12.R2)
+    cwf0 = RC.methods['_create_worker']
+    for cl, v in late_bound_closures(cwf0.node):
+        ctx.check('R3', 'RemoteContext._create_worker: a closure created per child is bound to that child', False, 'RemoteContext._create_worker', f'late-binding-closure:{v}',
+                  f'`{short(cl, 60)}` reads the loop variable `{v}` when it runs: when a context with two or more live workers is deleted only the last one is ended, the others stay '
+                  'alive and keep running the deleted context\'s target', where=loc(cwf0, cl))
     for m in ('wait', 'terminate', 'close', 'call'):
         mf = RC.methods[m]
         ok = any(last_attr(c) == m and receiver(c) == 'self._worker' for c in calls_in(mf.node))
